@@ -467,6 +467,36 @@ def check_transform_roundtrip_and_set_G_inv(tier, seed):
             err = max(float(np.max(np.abs(np.asarray(S.levels[0].residual[m]) - orig[p][m]))) for p, S in enumerate(c.MS) for m in range(2))
             tol = 1e-12 * (1 + alpha ** (-(n - 1) / n))  # rounding allowance scaled with the condition number of the J-weighting
             obs.append(_ob(f'controller[n={n},alpha={alpha}]:iFFT_in_time_after_FFT_in_time_is_identity', err < tol, dict(err=err, tol=tol)))
+    # history clause for the controller's transforms: the weighting follows the CURRENT alpha of the controller (alpha changed on a live controller
+    # between two uses, as an alpha-adaptive run does): the forward transform is the weighted FFT matrix of the current alpha applied to the step data
+    for n in (2, 4) if tier == 'quick' else (2, 3, 4, 8):
+        d = dict(problem_class=testequation0d, problem_params=dict(lambdas=-1.0 * np.ones(2), u0=1.0), sweeper_class=QDiagonalization,
+                 sweeper_params=dict(num_nodes=2, quad_type='RADAU-RIGHT', initial_guess='spread'), level_params=dict(dt=0.1, restol=1e-8), step_params=dict(maxiter=9))
+        c = controller_ParaDiag_nonMPI(num_procs=n, controller_params=dict(logger_level=40, alpha=1e-6, mssdc_jac=False, dump_setup=False), description=d)
+        for prob in [S.levels[0].prob for S in c.MS]:
+            prob.init = tuple([*prob.init[:2]] + [np.dtype('complex128')])
+        from pySDC.helpers.ParaDiagHelper import get_weighted_FFT_matrix, get_weighted_iFFT_matrix
+
+        for use, alpha in enumerate((1e-6, 1e-1, 1e-3)):
+            c.params.alpha = alpha
+            data = []
+            for S in c.MS:
+                L = S.levels[0]
+                for m in range(2):
+                    L.residual[m] = L.prob.u_init
+                    L.residual[m][:] = rng.randn(2) + 1j * rng.randn(2)
+                    L.increment[m] = L.prob.u_init
+                    L.increment[m][:] = rng.randn(2) + 1j * rng.randn(2)
+                data.append(([np.array(x) for x in L.residual], [np.array(x) for x in L.increment]))
+            c.FFT_in_time(quantity='residual')
+            c.iFFT_in_time(quantity='increment')
+            F, iF = get_weighted_FFT_matrix(n, alpha), get_weighted_iFFT_matrix(n, alpha)
+            err = 0.0
+            for i, S in enumerate(c.MS):
+                for m in range(2):
+                    err = max(err, float(np.max(np.abs(np.asarray(S.levels[0].residual[m]) - sum(F[i, j] * data[j][0][m] for j in range(n))))) / max(1.0, float(np.abs(F).max())))
+                    err = max(err, float(np.max(np.abs(np.asarray(S.levels[0].increment[m]) - sum(iF[i, j] * data[j][1][m] for j in range(n))))) / max(1.0, float(np.abs(iF).max())))
+            obs.append(_ob(f'controller[n={n}]:use#{use + 1}_with_alpha={alpha}:transforms_are_weighted_with_the_current_alpha', err < 1e-9, dict(err=err)))
     # history clause for set_G_inv
     for M in (2, 3):
         from pySDC.core.level import Level
